@@ -883,7 +883,8 @@ func (nl *NodeList) NodeDescendants(id string, maxDepth int) *NodeList {
 	rootIdx := nl.indexRootElements()
 	edgeIdx := nl.indexEdges()
 	startNode := nl.GetNodeByID(id)
-	if startNode == nil {
+	// The start node is level one: a depth below that selects nothing.
+	if startNode == nil || maxDepth < 1 {
 		return &NodeList{}
 	}
 
